@@ -3,6 +3,7 @@ package logger
 
 import (
 	"bytes"
+	"encoding/json"
 	"io"
 	"os"
 	"sync"
@@ -110,6 +111,14 @@ func writePlainTime(buf *bytes.Buffer, t time.Time, useColor bool) {
 	} else {
 		buf.WriteString(intbuf.String())
 	}
+}
+
+// writeJSONString writes s as a JSON string. Unlike strconv.Quote, which emits Go
+// escapes (\a, \v, \x7f, \xff) that JSON parsers reject, the output is valid JSON
+// for any input; invalid UTF-8 is replaced by U+FFFD.
+func writeJSONString(buf *bytes.Buffer, s string) {
+	enc, _ := json.Marshal(s) // cannot fail on a string
+	buf.Write(enc)
 }
 
 func writeLevel(buf *bytes.Buffer, level Level, useColor bool) {
